@@ -837,7 +837,11 @@ def _judge_compile(model, ce, mem):
             return isinstance(o, V) and o.name == self.name
 
         def __hash__(self):
-            return hash(self.name)
+            # (small integers: a set of these is iterated in the order
+            # math, x, y, b, a -- not the order of the names, so that a
+            # missing sort shows)
+            return {"math": 0, "x": 1, "y": 2, "b": 3, "a": 4}.get(
+                self.name, 5)
 
         def __str__(self):
             return self.name
@@ -855,7 +859,9 @@ def _judge_compile(model, ce, mem):
     wit = []
     for listed, want in ((["x", V("y")], "lambda x,y,a,b: SRC"),
                          ([], "lambda a,b,x: SRC"),
-                         (["b"], "lambda b,a,x: SRC")):
+                         (["b"], "lambda b,a,x: SRC"),
+                         # a listed variable stays, whatever it is called
+                         (["math", "x"], "lambda math,x,a,b: SRC")):
         seen = {}
 
         def mkvar(it, nd, a, k):
@@ -899,6 +905,7 @@ def _judge_compile(model, ce, mem):
             attrs=lambda it_, n_, b, at: (
                 getattr(b, at) if isinstance(b, V) and at == "name"
                 else Opaque(ast.unparse(n_))), max_steps=20000)
+        it.set_order = "reversed"
         me = Obj("CompiledExpression", {})
         label = f"variables listed: {[str(v) for v in listed]}"
         try:
@@ -940,7 +947,7 @@ def _compile(ctx, model):
         ctx.extra["judge_unavailable:CompiledExpression._compile"] = str(e)
     if cwit is not None:
         ctx.ob("P0/compile/signature-semantics", not cwit, where(mem),
-               "_compile interpreted on three variable lists: listed "
+               "_compile interpreted on four variable lists: listed "
                "variables first, the other free variables by name, context "
                "names left out; source from the printer at PREC_NONE; evaluated "
                "with math in scope" if not cwit else
